@@ -1305,7 +1305,7 @@ CLAUSES = [
            budget={"quick": 200, "thorough": 6000},
            what="single and composite spacelike normals dims 2-4: involutive, form preserving, det -1, wall fixed pointwise, normal negated, from_reflection round trip (Hyperplane; Geodesic in dim 2)"),
     Clause("nonreflection_oracle", "oracle", gen_o_nonrefl, run_o_nonrefl, judge_o_nonrefl, site="hyperbolic.Hyperplane.from_reflection",
-           budget={"quick": 200, "thorough": 5000}, what="conjugates of non-reflections raise GeometryError, reflections accepted; Geodesic.from_reflection only in dimension 2"),
+           budget={"quick": 800, "thorough": 8000}, what="conjugates of non-reflections (incl. near-reflections: a reflection times a rotation / translation of its wall by 1e-6..1e-3) raise GeometryError, reflections accepted; Geodesic.from_reflection only in dimension 2"),
     Clause("fixed_oracle", "oracle", gen_o_fixed, run_o_fixed, judge_o_fixed, lean=lean_o_fixed, site="hyperbolic.Isometry.fixed_point",
            budget={"quick": 250, "thorough": 8000},
            what="conjugates of standard rotations / loxodromics / parabolics: fixed (residual evaluated exactly in Lean), closed ball, interior for elliptic, two ideal endpoints attracting first, axis"),
